@@ -39,7 +39,12 @@ func (d *Driver) read() {
 		rb, err := d.Channel.Read()
 		if err != nil {
 			verifhook.Point("nc.read.errs-send")
-			d.errs <- err
+			select {
+			case d.errs <- err:
+			case <-d.done:
+				// closing, and no rpc is in flight to hand the error to
+				return
+			}
 			verifhook.Point("nc.read.errs-sent")
 		}
 
